@@ -21,7 +21,7 @@ for d in sorted(glob.glob(os.path.join(ROOT, "seeded", "*", ""))):
 n = len(rows)
 det = sum(1 for v in reg.values() if v.startswith("DETECTED"))
 conc = sum(1 for v in reg.values() if "concrete" in v)
-head = ("%d confirmed changes (3 are the reverses of the fix: commits, %d come from independent sub-agents in twenty-four batches; the "
+head = ("%d confirmed changes (3 are the reverses of the fix: commits, %d come from independent sub-agents in twenty-five batches; the "
         "third and later batches were asked for changes that are hard to notice and told which earlier ideas were already known).  Each "
         "compiles and leaves the unedited suite at 101 passed (gen/confirm_mut.sh in a scratch worktree: patch only / patch+demo "
         "/ demo only).  Last full regression (gen/seeded_regress.sh, quick tier, default seed): %d of %d detected by the check of "
@@ -43,11 +43,11 @@ head = ("%d confirmed changes (3 are the reverses of the fix: commits, %d come f
         "with a concrete input: C10-agent1 (mon_C10), C11-agent1 / C11-agent3 (router generator: richer recipient, round trips, "
         "no-loss minimums), C20-agent3 (LP parked at the pair by a plain transfer), C13-agent3 (routes whose final asset is also spent by an earlier hop are now driven "
         "first, while the router is certainly empty, with no minimum; stray router balances only late and in half of the histories).\n\n"
-        "Three confirmed changes are NOT detected and are recorded as such: C17-agent22 (it acts only when the owner's AddNativeTokenDecimals call carries a coin of another denom: factory messages carry no funds in the op language), C19-agent11 (it acts only where two different asset sets share one "
+        "Five confirmed changes are NOT detected and are recorded as such: C18-agent25 (needs a stand-alone pair with a rate of 2^64*10^-18 or more: the factory refuses rates above 1), C20-agent25 (needs an LP supply above 3.4*10^30, which the reserve-product bound makes unreachable through the entry points), C17-agent22 (it acts only when the owner's AddNativeTokenDecimals call carries a coin of another denom: factory messages carry no funds in the op language), C19-agent11 (it acts only where two different asset sets share one "
         "registry key, i.e. inside the recorded finding KF-key-concat, which the world model cannot express and the storage-level families "
         "do not reach through CreatePair) and C05-agent19 (it acts only on a pair that an ordinary account instantiated directly, outside "
         "the factory, and then provisions itself: the op language creates pairs through the factory only).\n\n"
-        "Batches 14-24 (session 4; 4-8 of 10 missed at first in each) again exposed what the driver could not yet SAY: the build profile of "
+        "Batches 14-25 (session 4; 4-8 of 10 missed at first in each) again exposed what the driver could not yet SAY: the build profile of "
         "the deployed wasm (debug assertions off), time passing between operations (block height), the wire spelling of hook payloads, JSON "
         "escapes, a chain-level admin, a counterfeit share token whose minter is the pair, callers whose names the address codec refuses, "
         "whole Receive envelopes as payloads, rates and limits with a given number of fractional digits, thirty-plus registered denoms, "
